@@ -502,15 +502,15 @@ func tagsFor(cs Case, p participant) []string {
 		t = append(t, "reader")
 	}
 	if cs.Lang == "sen" && topLevelComment(cs.Input) {
-		t = append(t, "toplevel-comment-after-value")
+		t = append(t, "toplevel-comment")
 	}
 	return t
 }
 
-// topLevelComment reports a comment start (// or /*) outside every container after some
-// value has begun: the zone of C03-K2.
+// topLevelComment reports a comment start (// or /*) outside every container: the zone of
+// C03-K2.
 func topLevelComment(in []byte) bool {
-	depth, seen := 0, false
+	depth := 0
 	var quote byte
 	for i := 0; i < len(in); i++ {
 		b := in[i]
@@ -525,19 +525,14 @@ func topLevelComment(in []byte) bool {
 		switch b {
 		case '"', '\'':
 			quote = b
-			seen = true
 		case '[', '{':
 			depth++
-			seen = true
 		case ']', '}':
 			depth--
 		case '/':
-			if depth <= 0 && seen && i+1 < len(in) && (in[i+1] == '/' || in[i+1] == '*') {
+			if depth <= 0 && i+1 < len(in) && (in[i+1] == '/' || in[i+1] == '*') {
 				return true
 			}
-		case ' ', '\t', '\n', '\r', ',':
-		default:
-			seen = true
 		}
 	}
 	return false
@@ -790,9 +785,10 @@ var classifiers = []vrt.Classifier{
 	// accepts, and a top level number or bare token directly followed by a comment is dropped
 	// or delivered depending on the entry point and the chunking ("0//c" gives nil without an
 	// error from Parse, 0 from the tokenizer; "a//" gives a from Parse and nothing from a one
-	// byte reader).
+	// byte reader); sen.Tokenizer in single document mode takes the end of a comment in front
+	// of the document for the end of the document ("//\na": extra characters after close).
 	{ID: "C03-K2", Match: func(d vrt.Disc, c *vrt.Ctx) bool {
-		return (d.Kind == "disagree-value" || d.Kind == "disagree-error") && has(d.Tags, "lang:sen") && has(d.Tags, "toplevel-comment-after-value")
+		return (d.Kind == "disagree-value" || d.Kind == "disagree-error") && has(d.Tags, "lang:sen") && has(d.Tags, "toplevel-comment")
 	}},
 	// C03-K1: gen.Big.Simplify() returns a string (documented: "Simplify the Node into a
 	// string"), so a big number parsed by gen.Parser and simplified is a string where
